@@ -5,6 +5,7 @@ mod ops;
 mod prng;
 mod props;
 mod runner;
+mod selftest;
 mod shrink;
 mod snap;
 mod spec;
@@ -88,6 +89,26 @@ fn main() {
                     0
                 }
                 None => 2,
+            }
+        }
+        "debug19" => {
+            let s = std::fs::read_to_string(&args[1]).unwrap();
+            let rf: runner::ReplayFile = serde_json::from_str(&s).unwrap();
+            props::stream::debug_c19(&rf.trace);
+            0
+        }
+        "selftest" => {
+            let n = args
+                .iter()
+                .position(|a| a == "--seeds")
+                .and_then(|i| args.get(i + 1))
+                .and_then(|s| s.parse().ok())
+                .unwrap_or(2000u64);
+            let only = args.iter().position(|a| a == "--prop").and_then(|i| args.get(i + 1)).map(|s| s.as_str());
+            match args.get(1).map(|s| s.as_str()) {
+                Some("determinism") => selftest::determinism(only, n),
+                Some("seam") => selftest::seam(n),
+                _ => usage(),
             }
         }
         _ => usage(),
